@@ -27,7 +27,6 @@ SITES = [
     ("gapic.schema.wrappers.Field.name",
      "_N_ + '_' if _N_ in utils.RESERVED_NAMES and self.meta.address.is_proto_plus_type else _N_",
      "Field.name (proto-plus types only: raw pb2 messages keep their attribute names)"),
-    ("gapic.schema.wrappers.MessageType.get_field", "_F_ + ('_' if _F_ in utils.RESERVED_NAMES else '')", "MessageType.get_field lookup key"),
     ("gapic.utils.uri_conv.convert_uri_fieldnames", "_S_ + '_' if _S_ in RESERVED_NAMES else _S_", "uri path variable segments"),
 ]
 
@@ -57,6 +56,19 @@ def check_predicate(report):
         node, b, _form = fmatch(m, pattern, fi)
         r1.instance(what)
         r1.check(node is not None, fi.module.path, fi.node.lineno, what, f"{what}: expected the shape `{pattern}` (exactly one trailing underscore, same predicate)")
+    # writer / reader agreement on the keys of `<message>.fields`: the writer is _get_fields (`answer[field.name] = field`), so a reader that
+    # computes a key from a proto name must suffix under exactly Field.name's condition - reserved AND proto-plus.  A reader that suffixes
+    # every reserved word looks up `type_` in a raw pb2 (dependency package) message whose key is `type`: KeyError at generation time.
+    gf = m.func("gapic.schema.wrappers.MessageType.get_field")
+    r1.instance("MessageType.get_field lookup key agrees with Field.name")
+    node_pp, _b, _f = fmatch(m, "self.fields[_F_ + ('_' if _F_ in utils.RESERVED_NAMES and self.meta.address.is_proto_plus_type else '')]", gf)
+    node_un, _b, _f = fmatch(m, "self.fields[_F_ + ('_' if _F_ in utils.RESERVED_NAMES else '')]", gf)
+    r1.need(node_pp is not None or node_un is not None, "MessageType.get_field: self.fields[<name> + ('_' if <reserved...> else '')]", "lookup key not recognised")
+    r1.check(node_pp is not None, gf.module.path, (node_un or gf.node).lineno if hasattr(node_un or gf.node, "lineno") else gf.node.lineno,
+             "MessageType.get_field: key suffixed for every reserved word",
+             "the keys of `fields` are Field.name, which suffixes reserved words only in proto-plus messages; get_field suffixes unconditionally, so "
+             "`get_field('type')` on a dependency-package (pb2) request raises KeyError('type_') - e.g. a method_signature, http body or routing "
+             "field naming a reserved-word field of such a request aborts generation")
     from .common_rules import per_segment_disambiguation
     for qual, attr, what in (("gapic.schema.wrappers.FieldHeader.disambiguated", "raw", "implicit routing header / http path variable read (may be dotted)"),
                              ("gapic.schema.wrappers.RoutingParameter.disambiguated_field", "field", "explicit routing field read (may be dotted)")):
@@ -72,6 +84,10 @@ def check_predicate(report):
     r1.instance("_fields_mapping key suffix")
     r1.check(ff["key_rule"] and ff["key_pos"], fm.module.path, fm.node.lineno, "flattened key suffix",
              "the flattened key gets '_' exactly when the *resolved leaf field's* proto name is reserved (a dotted path `a.class` must become `a.class_`)")
+    r1.instance("_fields_mapping key suffix agrees with Field.name")
+    r1.check(ff["proto_plus_only"] or not ff["key_rule"], fm.module.path, fm.node.lineno, "flattened key suffixed for every reserved word",
+             "the key is the attribute path written as `request.<key> = <param>`; a raw pb2 (dependency package) request keeps `type`, so the key "
+             "must be suffixed only when the resolved field's own name is (reserved AND proto-plus), like Field.name")
     # body suffix in try_parse_http_rule
     from ..pymodel import nfunc, find_match_ast
     from ..pynorm import norm_expr, canon_globals
@@ -140,6 +156,18 @@ def check_predicate(report):
     r3.instance("module_alias")
     r3.check(find_match("self.module in self.collisions or self.module in RESERVED_NAMES", ma.node)[0] is not None, ma.module.path, ma.node.lineno,
              "Address.module_alias", "module aliases are applied for collisions and reserved module names")
+    # every import the library emits for a type goes through Address.python_import; collisions are computed over the module names of ALL
+    # referenced types (Proto.names / Service.names), so every arm must carry the alias - an arm without one binds the bare module name even
+    # when two packages provide a module of that name
+    pi = m.func("gapic.schema.metadata.Address.python_import")
+    imports = [n for n in ast.walk(pi.node) if isinstance(n, ast.Call) and ast.unparse(n.func).endswith("Import")]
+    r3.need(len(imports) >= 2, "Address.python_import: imp.Import(...) arms", f"{len(imports)} found")
+    for c in imports:
+        kws = {k.arg: ast.unparse(k.value) for k in c.keywords}
+        r3.instance({"python_import arm": kws.get("module", "?")})
+        r3.check("module_alias" in kws.get("alias", ""), pi.module.path, c.lineno, f"Address.python_import: Import(module={kws.get('module')}) without alias",
+                 f"this arm imports `{kws.get('module')}` without the collision alias: two dependency packages that both ship a file of the same base "
+                 f"name (acme/alpha/types.proto, acme/beta/types.proto) are imported as the same name and the second import shadows the first")
     from .common_rules import proto_names_module_collisions, camel_case_drops_trailing_separator
     proto_names_module_collisions(r3)
     camel_case_drops_trailing_separator(r3)
